@@ -18,7 +18,7 @@ from props import freelist_common as fc
 META = {
     "level": "model_checking",
     "text": "TLC explores every alloc/alloc_from_unit/free/set|clear_uncoalescable/grow history of "
-            "the specification on lists of up to 5-6 units (8 in the thorough tier), with one and "
+            "the specification on lists of 4-5 units (6 and 8 in the thorough tier), with one and "
             "two heads, and proves: runs partition the list, outstanding allocations are pairwise "
             "disjoint and size() reports their length, alloc fails only when the head's list has "
             "no run of that length, free never merges across an uncoalescable boundary, coalescing "
@@ -62,6 +62,7 @@ def model_check(ctx):
         fc.mc(ctx, "MC_FreeList_big.cfg", require=ACTIONS, timeout=2400)
         fc.mc(ctx, "MC_FreeList_heads2_big.cfg", require=ACTIONS, timeout=2400)
         fc.mc(ctx, "MC_FreeList_rm_big.cfg", require=ACTIONS + ["Grow"], timeout=2400)
+        fc.mc(ctx, "MC_FreeList_grain4.cfg", require=ACTIONS, timeout=3000)
 
 
 def drive_and_validate(ctx):
